@@ -74,6 +74,7 @@ class Analyzer:
         self.watch = None               # optional predicate on callee paths: argument values are recorded in Result.call_states
         self.closure_seeds = {}         # closure body id -> {arg local: (lo, hi)}
         self.mag = False                # C03: emit MAG obligations at loop-count / allocation-size / dimension sinks
+        self.cargs = {}                 # values of the body's const generic parameters (index -> int) for a specialised analysis
 
     # ------------------------------------------------------------------ types
     def ty_range(self, tix):
@@ -631,6 +632,13 @@ class Analyzer:
             tix = c["ty"]
             if "val" in c:
                 return ("n", None, c["val"]), tix
+            if "cparam_index" in c:
+                # const generic parameter: known when this body is analysed for one instantiation
+                cv = self.cargs.get(c["cparam_index"]) if self.cargs else None
+                if cv is not None:
+                    return ("n", None, cv), tix
+                r = self.ty_range(tix)
+                return (("iv", r[0], r[1]) if r else TOP), tix
             if "static" in c:
                 return ("ref", "static:" + c["static"], ()), tix
             if "promoted" in c and "def" in c:
@@ -861,6 +869,16 @@ class Analyzer:
         elif op == "Mul":
             i = iv_mul(ia, ib)
             out = ("iv", i[0], i[1])
+            # x * c for a place-valued x and a small positive constant c: a symbolic product term, kept below x's place so that
+            # a write to x forgets it.  Two computations of the same product (`n as i32 * 64`, `n as usize * 64`) then agree.
+            for x, y in ((a, b), (b, a)):
+                if x[0] == "n" and x[1] is not None and x[1][0] == "v" and x[2] == 0 and y[0] == "n" and y[1] is None and 2 <= y[2] <= 65536 \
+                        and not (x[1][2] and isinstance(x[1][2][-1], tuple) and x[1][2][-1][:1] == ("mul",)) \
+                        and i[0] is not None and i[1] is not None and iv_within(i, r):
+                    t = ("v", x[1][1], x[1][2] + (("mul", y[2]),))
+                    st.set_iv(t, i[0], i[1])
+                    out = ("n", t, 0)
+                    break
         elif op == "Div":
             if ib[0] is not None and ib[0] > 0 and ia[0] is not None and ia[0] >= 0:
                 hi = None if ia[1] is None else ia[1] // ib[0]
@@ -1293,6 +1311,8 @@ class Analyzer:
                             if iy[0] is not None:
                                 st.add_le(x, me, -iy[0])
                 elif v[0] == "diff":
+                    if a[0] == "n" and b[0] == "n" and (a[1] is not None or b[1] is not None):
+                        st.lin[(c[0], c[1])] = (a, b)       # remembered: a later bound on `me` is a bound on a - b
                     # me = a - b : a - me = b
                     ib = st.val_iv(b)
                     if a[0] == "n" and a[1] is not None:
@@ -1531,6 +1551,14 @@ class Analyzer:
                         continue
                     new_in = e if new_in is None else new_in.join(e)
                 if new_in is None:
+                    # every incoming edge has become infeasible: the block is dead now (drop what an earlier, less precise
+                    # iteration left there, and let its own out-edges disappear)
+                    old = ins.get(succ)
+                    if old is not None and not old.bottom and succ != 0:
+                        dead = State()
+                        dead.bottom = True
+                        ins[succ] = dead
+                        work.add(succ)
                     continue
                 old = ins.get(succ)
                 if old is None:
@@ -1637,16 +1665,26 @@ class Analyzer:
         other = t["otherwise"]
         if d[0] == "b":
             c = d[1]
+            known = self.cond_truth(st, c)        # decided already (e.g. an equality of two aliases): prune the other arm
             for val, tg in targets:
                 s2 = st.copy()
-                self.assume(s2, c, bool(val))
+                if known is not None and known != bool(val):
+                    s2.bottom = True
+                else:
+                    self.assume(s2, c, bool(val))
                 outs.append((tg, s2))
             vals = {v for v, _ in targets}
             s2 = st.copy()
             if vals == {0}:
-                self.assume(s2, c, True)
+                if known is False:
+                    s2.bottom = True
+                else:
+                    self.assume(s2, c, True)
             elif vals == {1}:
-                self.assume(s2, c, False)
+                if known is True:
+                    s2.bottom = True
+                else:
+                    self.assume(s2, c, False)
             elif vals >= {0, 1}:
                 s2.bottom = True
             outs.append((other, s2))
